@@ -7,7 +7,10 @@ from concurrent.futures import ThreadPoolExecutor
 V = os.path.dirname(os.path.dirname(os.path.abspath(__file__)))
 ROUND2 = os.environ.get('ROUND2', '0') == '1'
 ROUND3 = os.environ.get('ROUND3', '0') == '1'
-if ROUND3:     # third round M11..M15: suffixes e, f (and g for an extra)
+ROUND4 = os.environ.get('ROUND4', '0') == '1'
+if ROUND4:     # fourth round M16..M20: suffixes h, i
+    cands = sorted(glob.glob('/tmp/M1[6-9]_out/C??-?') + glob.glob('/tmp/M20_out/C??-?'))
+elif ROUND3:     # third round M11..M15: suffixes e, f (and g for an extra)
     cands = sorted(glob.glob('/tmp/M1[1-5]_out/C??-?') + glob.glob('/tmp/M1[1-5]_out/C??-extra'))
 elif ROUND2:     # second round of independent agents M6..M10: ids get the suffixes c, d
     cands = sorted(glob.glob('/tmp/M[6-9]_out/C??-?') + glob.glob('/tmp/M10_out/C??-?'))
@@ -17,7 +20,9 @@ else:
 
 def sid_of(c):
     b = os.path.basename(c)
-    if ROUND3:
+    if ROUND4:
+        b = b[:-1] + {'a': 'h', 'b': 'i'}[b[-1]]
+    elif ROUND3:
         b = b.replace('-extra', '-g')
         b = b[:-1] + {'a': 'e', 'b': 'f', 'c': 'g', 'g': 'g'}[b[-1]]
     elif ROUND2:
